@@ -206,12 +206,14 @@ def gargsOf (kv : List (String × String)) : Model.GArgs :=
 def parseGEdit (s : String) : Option Model.GEdit :=
   match s.splitOn ":" with
   | ["d", h] => (ofHex h).map .detail
+  | ["f"] => some .freeDetail
   | _ => (parseTagOp s).map .tag
 
 /-- is the edit applicable to the kind (mirrors the harness, which answers -7777 otherwise) -/
 def editApplies (k : Model.GKind) (e : Model.GEdit) (o : Model.GObj) : Bool :=
   match e with
   | .detail _ => k == .action || k == .actionNoAck
+  | .freeDetail => k == .action || k == .actionNoAck
   | .tag (.setSsid _) => k == .beacon || k == .probeResp
   | .tag (.setChannel _) => k == .beacon || k == .probeResp || k == .assocResp || k == .reassocResp
   | .tag (.check _) => false
@@ -263,6 +265,9 @@ def specGen (mk : Model.GKind) (k : Spec.Kind) (a : Model.GArgs) (edits : List M
       details := details ++ d
       if details.length > 255 then return "any"
       er := details.length
+    | .freeDetail =>
+      details := []
+      er := 0
     | .tag op =>
       match Spec.refEdit elems (toEditOp op) with
       | some es =>
